@@ -1,8 +1,124 @@
-(* C18 — the pool executor runs every accepted task exactly once, survives failing tasks. *)
+(* C18 — The pool executor runs every accepted task exactly once, survives failing tasks.
+   Every theorem is about [run o (init n c) cs] for ALL schedules cs (lists of scheduler choices of
+   any length: which Execute call, worker or the Shutdown caller moves next; a choice that is
+   blocked is a no-op), all numbers of workers n, all capacities c (0 = unbuffered) and all task
+   outcomes o (succeed / return an error / panic).  Any number of goroutines may be inside
+   Execute at the same time (one [Call] per call, each with its own program counter).
+   This file holds only the property theorems; each is closed by a lemma of Proofs.v. *)
 From Coq Require Import List Arith Bool.
 From FV Require Import C18.Model C18.Proofs.
 Import ListNotations.
 
-Theorem c18_call_enabled : forall o s, step o s Call <> None.
-Proof. exact call_enabled. Qed.
-Print Assumptions c18_call_enabled.
+(* "Submitting a task to a running executor returns as soon as its queue has room":
+   an Execute call under way can be blocked at one place only — parked on the queue send while
+   its value lies beyond the capacity; with room it moves; on a running executor every step it
+   takes brings it closer to returning (at most 4 own steps) *)
+Theorem c18_execute_returns : forall o n c cs t,
+  let s := run o (init n c) cs in
+  live (subs s t) ->
+  (step o s (Sub t) = None -> subs s t = SParked /\ In t (skipn (cap s) (queue s))) /\
+  (length (queue s) <= cap s -> step o s (Sub t) <> None) /\
+  (forall s', ph s = PRunning -> step o s (Sub t) = Some s' -> rank (subs s' t) < rank (subs s t)).
+Proof.
+  intros o n c cs t s L. split; [apply sub_blocked_only_without_room; exact L|].
+  split; [apply sub_room; exact L | intros s'; apply sub_progress].
+Qed.
+Print Assumptions c18_execute_returns.
+
+(* ... and, undisturbed, a call on a running executor with room returns nil with its task queued *)
+Theorem c18_execute_solo : forall o n c cs,
+  let s := run o (init n c) cs in
+  ph s = PRunning -> length (queue s) < cap s ->
+  let s' := run o s [Call; Sub (next s); Sub (next s); Sub (next s); Sub (next s)] in
+  subs s' (next s) = SRet ROk /\ queue s' = queue s ++ [next s] /\ ran s' = ran s.
+Proof. intros o n c cs s. apply solo_execute. apply (proj1 (reach_Inv o n c cs)). Qed.
+Print Assumptions c18_execute_solo.
+
+(* "every task it accepts is run exactly once": an Execute that returned nil before Shutdown began
+   (state s1) has had its task run exactly once by the time Shutdown is past wg.Wait — in
+   particular when Shutdown has returned (sh = ShDone) *)
+Theorem c18_run_once : forall o n c cs1 cs2 t,
+  let s1 := run o (init n c) cs1 in
+  let s2 := run o s1 cs2 in
+  sh s1 = ShIdle -> subs s1 t = SRet ROk -> joined (sh s2) = true ->
+  count_occ Nat.eq_dec (ran s2) t = 1.
+Proof. exact run_once. Qed.
+Print Assumptions c18_run_once.
+
+(* no task is ever run twice, and only submitted tasks are run *)
+Theorem c18_at_most_once : forall o n c cs t,
+  count_occ Nat.eq_dec (ran (run o (init n c) cs)) t <= 1.
+Proof. exact at_most_once. Qed.
+Print Assumptions c18_at_most_once.
+
+Theorem c18_only_submitted : forall o n c cs t,
+  let s := run o (init n c) cs in In t (ran s) -> In t (entered s) /\ t < next s.
+Proof. exact only_submitted. Qed.
+Print Assumptions c18_only_submitted.
+
+(* the accounting behind it: nothing handed to the queue is lost or duplicated *)
+Theorem c18_accounting : forall o n c cs,
+  let s := run o (init n c) cs in
+  Permutation.Permutation (entered s) (ran s ++ busy (ws s) ++ queue s ++ bounced s) /\ NoDup (entered s).
+Proof.
+  intros o n c cs s. destruct (reach_Inv o n c cs) as [_ B]. split; [apply (b_perm _ B) | apply (b_nodup _ B)].
+Qed.
+Print Assumptions c18_accounting.
+
+(* "with a single worker, tasks run in submission order": the tasks run so far are a prefix of
+   the tasks in the order in which they entered the queue *)
+Theorem c18_single_worker_order : forall o n c cs, n <= 1 ->
+  let s := run o (init n c) cs in exists rest, entered s = ran s ++ rest.
+Proof. exact single_worker_order. Qed.
+Print Assumptions c18_single_worker_order.
+
+(* "a task that returns an error or panics neither kills a worker nor prevents later tasks from
+   running": whatever the tasks do, the executor goes through exactly the same states (only the
+   error / recovered-panic logs differ), and until close(done) every worker is alive *)
+Theorem c18_failing_task_harmless : forall o1 o2 n c cs,
+  core (run o1 (init n c) cs) = core (run o2 (init n c) cs).
+Proof. intros. apply outcome_irrelevant. reflexivity. Qed.
+Print Assumptions c18_failing_task_harmless.
+
+Theorem c18_workers_survive : forall o n c cs,
+  let s := run o (init n c) cs in
+  nw s = Nat.max 1 n /\ (ws s = [] \/ length (ws s) = nw s) /\
+  (started_ph (ph s) = true -> length (ws s) = nw s) /\
+  (dn s = false -> Forall alive_w (ws s)).
+Proof. exact workers_count. Qed.
+Print Assumptions c18_workers_survive.
+
+(* "Once shutdown has returned no task is running or will be started, and all workers have exited" *)
+Theorem c18_quiescent : forall o n c cs cs',
+  let s := run o (init n c) cs in
+  sh s = ShDone ->
+  Forall (fun w => w = WExited) (ws s) /\ length (ws s) = nw s /\ 1 <= nw s /\
+  busy (ws s) = [] /\
+  sh (run o s cs') = ShDone /\ ran (run o s cs') = ran s /\ busy (ws (run o s cs')) = [].
+Proof. exact quiescent. Qed.
+Print Assumptions c18_quiescent.
+
+(* concurrent first Execute: however many callers meet the fresh executor, none of them panics
+   or is refused before Shutdown has begun (the workers are spawned once: c18_workers_survive) *)
+Theorem c18_concurrent_start_safe : forall o n c cs t,
+  let s := run o (init n c) cs in sh s = ShIdle -> bad_ret (subs s t) = false.
+Proof. exact no_bad_before_shutdown. Qed.
+Print Assumptions c18_concurrent_start_safe.
+
+(* non-vacuity: two callers race for the start, both are accepted, one task fails and one panics,
+   Shutdown begins while task 1 is still queued, and returns after both have run *)
+Definition ex_oracle (t : nat) : outcome := match t with 0 => OErr | _ => OPanic end.
+Definition ex_cs1 : list choice :=
+  [Call; Call; Sub 0; Sub 1; Sub 0; Sub 1; Sub 0; Sub 1; Sub 0; Sub 0; Sub 0; Sub 0;
+   Sub 1; Sub 1; Sub 1; Take 0; Sub 1].
+Definition ex_cs2 : list choice :=
+  [Shut; Shut; SeeDone 1; DrainTake 1; Finish 0; Finish 1; SeeDone 0; DrainEmpty 0; DrainEmpty 1;
+   Shut; Shut; Shut].
+Example c18_example :
+  let s1 := run ex_oracle (init 2 1) ex_cs1 in
+  let s2 := run ex_oracle s1 ex_cs2 in
+  (sh s1 = ShIdle /\ ph s1 = PRunning /\ subs s1 0 = SRet ROk /\ subs s1 1 = SRet ROk /\
+   queue s1 = [1] /\ ws s1 = [WBusy 0; WIdle]) /\
+  (sh s2 = ShDone /\ ran s2 = [0; 1] /\ errs s2 = [0] /\ recovered s2 = [1] /\
+   ws s2 = [WExited; WExited]).
+Proof. vm_compute. repeat split. Qed.
